@@ -266,7 +266,9 @@ func c15Op(c *WCase, res *WResult) {
 			afero.WriteFile(mem, path, withAttrs(7, value), 0o644)
 		}
 		ffs := fault.NewFs(mem)
-		ffs.Plan = fault.Plan{K: k, Persistent: persistent, Mode: mode}
+		if !strings.HasSuffix(op, ".signer") { // for the signer ops the filesystem itself is healthy
+			ffs.Plan = fault.Plan{K: k, Persistent: persistent, Mode: mode}
+		}
 		e := efivarfs.NewFS()
 		e.SetFS(ffs)
 		efifs.SetFS(ffs)
